@@ -13,7 +13,9 @@ pub fn from_utf8_model(v: &[u8]) -> Result<&str, std::str::Utf8Error> {
         Ok(unsafe { std::str::from_utf8_unchecked(v) })
     } else {
         // obtain a genuine Utf8Error value without running the word-at-a-time validator on symbolic data
-        Err(std::str::from_utf8(&[0xFFu8]).unwrap_err())
+        // (`from_utf8_mut` validates with `run_utf8_validation` directly, it is not the stubbed function)
+        let mut bad = [0xFFu8];
+        Err(std::str::from_utf8_mut(&mut bad).unwrap_err())
     }
 }
 
